@@ -46,29 +46,30 @@ func checkStatus(run *rt.Run, w *World, o *SendObs, thr, thrSinks int, ctxInfo a
 		return
 	}
 
-	// what really happened, from the node log: terminal entries per expected traversal
-	used := map[*Entry]bool{}
+	// what really happened, from the node log alone: an invocation ended a traversal successfully when
+	// it returned no error and either dropped the event or returned an event that no node received
+	// afterwards (the log is complete: it is read after every goroutine of the Send has finished).
 	var okIDs, okSinkIDs []string
 	var logErrs []error
-	for _, tr := range o.Expected {
-		if tr.Complete == "" {
+	for _, e := range o.Entries {
+		if e.Ret == 0 || e.RetErr != nil || e.Ret > o.Ret {
 			continue
 		}
-		last := tr.Steps[len(tr.Steps)-1]
-		for _, e := range o.Entries {
-			if used[e] || e.Node != last.Obj || e.Prov != last.Prov || e.Ret == 0 || e.RetErr != nil {
-				continue
+		terminal := e.RetEv == nil
+		if !terminal {
+			terminal = true
+			for _, x := range o.Entries {
+				if x != e && x.Ev == e.RetEv && x.Call > e.Ret {
+					terminal = false
+					break
+				}
 			}
-			// the terminal entry must have returned before Send returned to be reportable
-			if e.Ret > o.Ret {
-				continue
+		}
+		if terminal {
+			okIDs = append(okIDs, string(e.Node.ID))
+			if e.Node.Typ == eventlogger.NodeTypeSink {
+				okSinkIDs = append(okSinkIDs, string(e.Node.ID))
 			}
-			used[e] = true
-			okIDs = append(okIDs, tr.Complete)
-			if tr.IsSink {
-				okSinkIDs = append(okSinkIDs, tr.Complete)
-			}
-			break
 		}
 	}
 	for _, e := range o.Entries {
